@@ -234,6 +234,95 @@ def body_section(S, t, part):
     S.note("outcome", "accepted")
 
 
+def _enum_params():
+    import re
+    import os
+    from engine.symdrv import REPO
+    txt = open(os.path.join(REPO, "mpf/config_spec.yaml")).read()
+    return sorted(set(re.findall(r"\|enum\(([^)]*)\)\|", txt)))
+
+
+def body_enum(S, t, part):
+    """every enum(...) of the spec: members are accepted and returned, near-misses (substrings, joined members, '', ',') are rejected"""
+    cv = t.machine.config_validator
+    params = _enum_params()[part["range"][0]:part["range"][1]]
+    param = params[S.choice("enum", len(params))]
+    members = param.split(",")
+    allowed = set(x.lower() for x in members)
+    cands = list(members)
+    first = members[0]
+    cands += [first[:-1], first[1:], first + ",", ",", "", " ", ",".join(members[:2]), first.upper(), first + "x", "x" + first]
+    if len(members) > 1:
+        cands += [members[1][:-1], members[-1][:2]]
+    cands += [True, False, 0, 1, None]
+    item = cands[S.choice("candidate", len(cands))]
+    try:
+        got = cv.validate_item(item, "enum(%s)" % param, None)
+    except Exception:  # pylint: disable=broad-except
+        if isinstance(item, str) and item.lower() in allowed and item.lower() != "none":
+            raise Violation("enum-member-accepted", "_validate_type_enum", "enum(%s) rejected its member %r" % (param, item))
+        S.note("nontrivial", True)
+        S.note("outcome", "rejected")
+        return
+    if got is None:
+        if "none" not in allowed and item is not None and not (isinstance(item, str) and item.lower() == "none"):
+            raise Violation("enums-restricted", "_validate_type_enum", "enum(%s) on %r returned None" % (param, item))
+    elif not isinstance(got, str) or got not in allowed:
+        raise Violation("enums-restricted", "_validate_type_enum", "enum(%s) on %r returned %r which is not a member" % (param, item, got))
+    S.note("nontrivial", True)
+    S.note("outcome", "accepted")
+
+
+def _subconfigs(t):
+    """(section, key, item_type, validator) for every spec entry that nests a sub-section"""
+    cv = t.machine.config_validator
+    out = []
+    for name in sorted(cv.config_spec):
+        sec = cv.config_spec[name]
+        if not isinstance(sec, dict) or name.startswith("_"):
+            continue
+        for k, v in sorted(sec.items()):
+            if isinstance(v, list) and len(v) == 3 and "subconfig(" in v[1]:
+                out.append((name, k, v[0], v[1]))
+            elif isinstance(v, dict) and not k.startswith("_"):
+                out.append((name, k, "listofdicts", ""))
+    return out
+
+
+def body_nested(S, t, part):
+    """an unknown key inside a nested sub-section must be rejected just like one at the top level"""
+    cv = t.machine.config_validator
+    subs = _subconfigs(t)[part["range"][0]:part["range"][1]]
+    if not subs:
+        S.assume(False)
+    name, key, item_type, validator = subs[S.choice("occurrence", len(subs))]
+    bad = {"zz_not_a_setting": 1}
+    if item_type == "single":
+        src = {key: bad}
+    elif item_type in ("list", "listofdicts"):
+        src = {key: [bad]}
+    elif item_type == "dict":
+        kt = validator.split(":")[0]
+        src = {key: {(1 if kt == "int" else "k1"): bad}}
+    else:
+        S.assume(False)
+    # the sub-section may allow arbitrary keys
+    target = validator.split("subconfig(")[1].split(")")[0].split(",")[0] if "subconfig(" in validator else name + ":" + key
+    spec = cv.config_spec
+    for piece in target.split(":"):
+        spec = spec.get(piece, {}) if isinstance(spec, dict) else {}
+    allow_others = isinstance(spec, dict) and "__allow_others__" in spec
+    try:
+        cv.validate_config(name, src, name)
+    except Exception:  # pylint: disable=broad-except
+        S.note("nontrivial", True)
+        S.note("outcome", "rejected")
+        return
+    if not allow_others:
+        raise Violation("unknown-key-rejected", "check_for_invalid_sections", "section %s: unknown key inside nested %s (%s) was silently accepted" % (name, key, validator or "list of dicts"))
+    S.note("outcome", "accepted-allow-others")
+
+
 def _range_validators():
     """all `type(min,max)` occurrences with numeric types from the spec file (re-read on every run)."""
     import re
@@ -252,6 +341,11 @@ def scenarios(tier):
     n_sec = 60 if tier == "quick" else 400
     sec_parts = [dict(range=[i, i + 10]) for i in range(0, n_sec, 10)]
     pb = 60 if tier == "quick" else 240
+    ne = len(_enum_params())
+    enum_parts = [dict(range=[i, i + 12]) for i in range(0, ne, 12)]
+    nested_parts = [dict(range=[i, i + 15]) for i in range(0, 90, 15)]
     return [Scenario("time", setup, body_time, time_parts, teardown=teardown, part_budget=pb, per_path_timeout=30),
             Scenario("validator", setup, body_validator, val_parts, teardown=teardown, part_budget=pb, per_path_timeout=30),
+            Scenario("enum", setup, body_enum, enum_parts, teardown=teardown, part_budget=pb, per_path_timeout=30),
+            Scenario("nested", setup, body_nested, nested_parts, teardown=teardown, part_budget=pb, per_path_timeout=30, min_nontrivial=0),
             Scenario("section", setup, body_section, sec_parts, teardown=teardown, part_budget=pb, per_path_timeout=30, min_nontrivial=0)]
